@@ -279,11 +279,24 @@ structure CallOut where
   raised : Bool
   deriving DecidableEq, Repr
 
-/-- `AsyncResult.__call__(is_exc, obj)` with such callbacks: when one raises, the value has been published
-and the result is ready, the callbacks after it are not run, and `del self._callbacks[:]` is not reached —
-the whole list stays stored (and is never run again: the registry entry is gone). -/
-def callR (expired : Bool) (now : Nat) (cbs : List Cb) (isExc : Bool) (v : Nat) : CallOut :=
+/-- the loop that runs *every* callback: `for cb in callbacks: try: cb(self) except Exception as ex: remember the
+first`; returns the invocations in order and whether any callback raised -/
+def runAll (now : Nat) : List Cb → List (Nat × Nat) → List (Nat × Nat) × Bool
+  | [], log => (log, false)
+  | c :: rest, log =>
+    ((runAll now rest (log ++ (c.id, now) :: c.adds.map (fun a => (a, now)))).1,
+     c.raises || (runAll now rest (log ++ (c.id, now) :: c.adds.map (fun a => (a, now)))).2)
+
+/-- `AsyncResult.__call__(is_exc, obj)` with such callbacks.  `allRun` is measured on the source
+(`Gen.Async.callbacksAllRun`):
+* `true`: the list is copied and cleared, every callback runs in order, the first error is re-raised after the
+  loop;
+* `false`: the loop stops at the first callback that raises — the value has been published and the result is
+  ready, the callbacks after it are not run, and `del self._callbacks[:]` is not reached (the whole list stays
+  stored and is never run again: the registry entry is gone). -/
+def callR (allRun : Bool) (expired : Bool) (now : Nat) (cbs : List Cb) (isExc : Bool) (v : Nat) : CallOut :=
   if expired then ⟨false, none, none, [], cbs.map Cb.id, false⟩
+  else if allRun then ⟨true, some isExc, some v, (runAll now cbs []).1, [], (runAll now cbs []).2⟩
   else if (runCbs now cbs []).2 then ⟨true, some isExc, some v, (runCbs now cbs []).1, cbs.map Cb.id, true⟩
   else ⟨true, some isExc, some v, (runCbs now cbs []).1, [], false⟩
 
